@@ -35,6 +35,16 @@ def run(rep):
             off = rep.seed % step
             with open(src, "w", encoding="utf-8", errors="surrogateescape") as f:
                 f.write("\n".join(lines[off::step]) + "\n")
+        # plus statements of the verification grammar (the property quantifies over corpus + grammar)
+        ng = 1500 if rep.tier == "quick" else 40000
+        rcg, outg = verif.sh(["python3", os.path.join(verif.ROOT, "checks", "gen_sql_grammar.py"), str(rep.seed), str(ng)], timeout=1200)
+        if rcg == 0 and outg.strip():
+            merged = os.path.join(verif.BUILD, "relayout_in_all.txt")
+            with open(merged, "w", encoding="utf-8", errors="surrogateescape") as f:
+                f.write(open(src, encoding="utf-8", errors="surrogateescape").read().rstrip("\n") + "\n" + outg.rstrip("\n") + "\n")
+            src = merged
+        else:
+            broken.append({"obligation": "harness:gen_sql_grammar", "detail": outg[-400:]})
         outp = os.path.join(verif.BUILD, "relayout_out.txt")
         k = "8" if rep.tier == "quick" else "24"
         rc, err = verif.parallel_map_files([os.path.join(verif.BUILD, "relayout"), "-seed", str(rep.seed), "-k", k], src, outp, timeout=3000)
@@ -60,7 +70,7 @@ def run(rep):
             broken.append({"obligation": "harness:relayout", "detail": err[-500:]})
         rep.coverage.update({
             "evaluations": variants, "distinct_nontrivial": ok + bad,
-            "rule": "corpus statements (quick: every n-th, about 2500; thorough: all 9.7k) x K variants: every gap replaced by a random separator (spaces, tabs, newlines, Unicode spaces, -- / # / nested block comments), empty gaps filled when re-lexing shows the pair is safe, every keyword token case-flipped (not when the word reaches the output as a name), "
+            "rule": "corpus statements (quick: every n-th, about 2500; thorough: all 9.7k) and statements of the verification grammar (1500 / 40000) x K variants: every gap replaced by a random separator (spaces, tabs, newlines, Unicode spaces, -- / # / nested block comments), empty gaps filled when re-lexing shows the pair is safe, every keyword token case-flipped (not when the word reaches the output as a name), "
                     "leading/trailing/doubled semicolons; interiors of array/tuple literals under '::' untouched; EXPLAIN of every variant compared with the baseline; distinct_nontrivial = statements re-laid-out",
             "samples": samples or ["ok"], "statements": ok + bad, "bad": bad, "trusted_base": TRUSTED,
         })
